@@ -1272,7 +1272,10 @@ class Pool:
         pass
 
     def on_job_process_lost(self, job, pid, exitcode):
-        job._worker_lost = (monotonic(), exitcode)
+        if not job._worker_lost:
+            # keep the first detection: reaping other workers later must
+            # not restart the grace period or forget the exit status.
+            job._worker_lost = (monotonic(), exitcode)
 
     def mark_as_worker_lost(self, job, exitcode):
         try:
